@@ -180,7 +180,7 @@ func selCall(e ast.Expr) string {
 }
 
 // isMaxOfLoadedAndLocal: max(x.Id, v) (either order) where v is a local variable that is only ever assigned the
-// first result of checkpointIDFromFilePath (directly or through `id, ok := checkpointIDFromFilePath(..)`).
+// first result of checkpointIDFromFilePath / savepointIDFromFilePath (through `id, ok := checkpointIDFromFilePath(..)`).
 func isMaxOfLoadedAndLocal(e ast.Expr, load *ast.FuncDecl, isLoadedID func(ast.Expr) bool) bool {
 	c, ok := e.(*ast.CallExpr)
 	if !ok || selName(c.Fun) != "max" || len(c.Args) != 2 {
@@ -200,7 +200,8 @@ func isMaxOfLoadedAndLocal(e ast.Expr, load *ast.FuncDecl, isLoadedID func(ast.E
 	decoded := map[string]bool{}
 	ast.Inspect(load.Body, func(x ast.Node) bool {
 		if a, ok := x.(*ast.AssignStmt); ok && len(a.Rhs) == 1 && len(a.Lhs) == 2 {
-			if selCall(a.Rhs[0]) == "checkpointIDFromFilePath" {
+			// ids decoded from listed file names: job snapshot files and (D66) savepoint artifacts
+			if fn := selCall(a.Rhs[0]); fn == "checkpointIDFromFilePath" || fn == "savepointIDFromFilePath" {
 				if id, ok := a.Lhs[0].(*ast.Ident); ok {
 					decoded[id.Name] = true
 				}
